@@ -42,7 +42,8 @@ Definition conn_eqb (a b : conn) : bool :=
   Z.eqb (app_events a) (app_events b) &&
   Bool.eqb (desync a) (desync b) &&
   Bool.eqb (gated a) (gated b) &&
-  Bool.eqb (waiting a) (waiting b).
+  Bool.eqb (waiting a) (waiting b) &&
+  true (* ignore_first: lowering it is what 'ignored' means *).
 
 Definition pair_eqb (a b : Z * Z) : bool := (fst a =? fst b) && (snd a =? snd b).
 
@@ -160,9 +161,11 @@ Definition predicted_ok (s : st) (suffix : list (list (Z * Z * bool))) (e : Z * 
     let later := closed (cn (run_chunks (note_all s1 (map fst mo)) suffix)) in
     let same := conn_eqb (cn s1) (cn s) in
     match mo with
-    | [] => if same then verdict_eqb v (if later then VL else VI)
+    | [] => if same then (if later then verdict_eqb v VL || verdict_eqb v VH      (* ends, or hangs, later on *)
+                         else verdict_eqb v VI)
             else verdict_eqb v VH || verdict_eqb v VL
-    | [(3, q)] => if same && (q =? recv_seq s) then verdict_eqb v (if later then VL else VU)
+    | [(3, q)] => if same && (q =? recv_seq s) then (if later then verdict_eqb v VL || verdict_eqb v VH
+                                                     else verdict_eqb v VU)
                   else verdict_eqb v VH || verdict_eqb v VL
     | _ => verdict_eqb v VH || verdict_eqb v VL
     end.
